@@ -132,6 +132,7 @@ func (l *layoutCtx) encoder(pkg, name string, variants []Variant, out func(r abs
 			return l.e.AutoArgs(p, fn)
 		})
 		var problems []string
+		compared := 0
 		for _, r := range res {
 			if pr := pathProblems(r); pr != "" {
 				problems = append(problems, "undecided: "+pr)
@@ -142,6 +143,10 @@ func (l *layoutCtx) encoder(pkg, name string, variants []Variant, out func(r abs
 				continue
 			}
 			segs, why := out(r)
+			if why == "skip" {
+				continue
+			}
+			compared++
 			if why != "" {
 				problems = append(problems, why+" on path "+strings.Join(r.Path.Forks, ","))
 				continue
@@ -150,7 +155,10 @@ func (l *layoutCtx) encoder(pkg, name string, variants []Variant, out func(r abs
 				problems = append(problems, m+pathSuffix(r))
 			}
 		}
-		facts := map[string]interface{}{"paths": len(res), "expected": abs.SpecString(v.Spec)}
+		if compared == 0 && len(problems) == 0 {
+			problems = append(problems, "undecided: no path produces output")
+		}
+		facts := map[string]interface{}{"paths": len(res), "compared_paths": compared, "expected": abs.SpecString(v.Spec)}
 		if len(problems) == 0 {
 			R.OKf(l.rule, key, P.Pos(fn.Pos()), fmt.Sprintf("bytes produced on all %d path(s) equal the specification layout", len(res)), facts)
 		} else {
